@@ -14,7 +14,7 @@ H("c19_views", "C19", "seq", ["harness/c19_views.cc"], sdk=C19_SDK,
        "up-down counter) on two meters (one unversioned and schema-less with the same name) make one measurement each; oracle: the streams at a pull reader are exactly those shaped by "
        "each matching view plus the default stream of every unmatched instrument (name, description, unit, point kind, configured histogram boundaries / min-max, attribute keys)",
   design_ref="5/C19")
-H("c19_scopes", "C19", "seq", ["harness/c19_scopes.cc"], sdk=C19_SDK,
+H("c19_scopes", "C19", "seq", ["harness/c19_scopes.cc"], sdk=C19_SDK, cxxflags=["-fno-access-control"],
   args={"quick": ["--rules=4"], "thorough": ["--rules=5"]},
   what="real TracerProvider / MeterProvider / LoggerProvider with a ScopeConfigurator built from every rule list up to the length bound over {name-equals x, name-equals y, "
        "custom matcher on the version, custom matcher on an attribute} x {enable, disable} with both defaults; four scope identities emit one span / one measurement through an "
